@@ -184,7 +184,7 @@ Definition macro_bl_process (s : st) : st :=
   else if str_eqb tag (R "enum") then begin_enum_list id s7
   else
     match nth_error (tinfo s7) (tcount s7) with
-    | None => set_panic "macroBlProcess: Table.info index out of range" s7
+    | None => begin_table (mkTd [] 0%nat []) s7
     | Some ti =>
         let s8 := match td_title ti with [] => s7 | _ => s7 <| ttit ::= S |> <| ttitscope := true |> end in
         begin_table ti s8
